@@ -148,9 +148,16 @@ def run_case(case):
           wait[i] = 0 if not (reqs >> i) & 1 else wait[i]
     m.tick(reqs, en, st["reset"])
     top.sim_tick()
-    ptr = int(top.priority_reg.out)
+    # the pointer register is internal state: probed when it has the shipped shape (a register
+    # component or a plain signal), otherwise only its observable consequence below is checked
+    pr = getattr(top, "priority_reg", None)
+    pr = getattr(pr, "out", pr)
+    try:
+      ptr = int(pr)
+    except Exception:
+      ptr = None
     D.add("p", ptr)
-    if ptr != m.ptr_onehot():
+    if ptr is not None and ptr != m.ptr_onehot():
       viol.append(_viol("pointer_after_tick", t, got=ptr, want=m.ptr_onehot()))
     got2 = int(top.grants)
     if got2 != m.grant(reqs):
